@@ -436,7 +436,9 @@ pub fn all() -> Vec<Scenario> {
             profile: prof(),
             steps: cat(vec![
                 start(),
-                vec![spawn(0, &[Kind::A]), Step::Emit { ev: SEv::Ord, mode: Mode::Broadcast, target: Some(0) }],
+                // one event with a reference to the new entity (dropped as unresolvable: C05), one without (handed
+                // out before the spawn is applied: C04)
+                vec![spawn(0, &[Kind::A]), Step::Emit { ev: SEv::Ord, mode: Mode::Broadcast, target: Some(0) }, Step::Emit { ev: SEv::Ord, mode: Mode::Broadcast, target: None }],
                 vec![sf(false), del(0, Chan::SEv(SEv::Ord)), cf(0), del(0, Chan::Updates), cf(0)],
                 vec![Step::Heal],
             ]),
